@@ -196,6 +196,7 @@ def run(chk, replay=None):
               (sweep[i:i + 33], ("max",))) for i in range(0, len(sweep), 33)]
     # short products whose half-words sit at boundary values (a carry between partial sums taken, dropped or doubled)
     jobs += [("products on half-word boundary operands part %d" % i, c10.drive_halves, (10 + i, 100 if quick else 1000)) for i in range(3)]
+    jobs += [("all three-term products of half-word extremes (%s)" % ["bbb", "baa"][i], c10.drive_enum3, (i,)) for i in range(2)]
     res = isolated_many(chk, jobs, timeout=2400, nproc=10)
     # stateful events (NttMeta followed by its stages) must stay together: one TLC process per job
     total, allbad = 0, 0
